@@ -347,7 +347,7 @@ class Machine(object):
                     pending=[r for r in conn.handlers
                              if not r.calls and r.refused is None and registered.get(r.stream, (None,))[0] is r.wrapped],
                     cp=[(sid, s) for (c, sid, s, _l) in self.cp_sessions
-                        if c is conn and sid in conn._continuous_paging_sessions],
+                        if c is conn and conn._continuous_paging_sessions.get(sid) is s],
                     unanswered=[s for s in self.sreqs if s.conn is conn and s.answered is None],
                     live_futs=[])
         conn.close_snapshot = snap
